@@ -75,9 +75,9 @@ class Logger:
 
     def log_node(self, node: Any) -> str:
         """Log fcp node."""
-        # sources are registered by path and by base name: prefer the path, so
-        # that modules with the same base name do not shadow each other
-        filename = str(node.meta.filename)
+        # sources are registered by absolute path and by base name: prefer the
+        # path, so that modules with the same base name do not shadow each other
+        filename = str(Path(node.meta.filename).resolve())
         if filename not in self.sources:
             filename = Path(filename).name
         lines = self.sources[filename].split("\n")
